@@ -124,7 +124,7 @@ def _cases(draw, tier):
                 vals.append(e)
             if draw(st.integers(0, 7)) == 0:
                 # a list that begins with a character literal is still a list of expressions
-                lit = ['num', ord(draw(st.sampled_from('aZq09 #~;,\\'))), 'chr']
+                lit = ['num', ord(draw(st.sampled_from('aZq09 #~;,\\\'"'))), 'chr']
                 vals[0] = draw(st.sampled_from([lit, ['bin', '+', lit, ['num', draw(st.integers(0, 9)), 'dec']],
                                                 ['bin', '-', lit, ['num', 1, 'dec']]]))
             first = vals[0]
